@@ -394,6 +394,35 @@ def perturb_case(case, res):
                 y2 = z[3:]
                 y2.sample_rate = y2.sample_rate * (1 + 1e-3)
                 expect_reject([x, y2], "sample_rate assigned x(1+1e-3)")
+        # the same rate / bandwidth written in another unit is the same rate; the same NUMBER in another unit is not
+        x, y = z[:3], z[3:]
+        for unit in (u.kHz, u.Hz, u.GHz):
+            y2 = type(y).like(y, sample_rate=y.sample_rate.to(unit))
+            res.transitions += 1
+            try:
+                j = pb.concatenate([x, y2])
+                if len(j) != len(z) or not np.array_equal(np.asarray(j.data), np.asarray(z.data)):
+                    res.violation("perturb|unit spelling|data", f"sample_rate in {unit}: joined data differ", case, {"unit": str(unit)})
+            except Exception as e:
+                res.violation("perturb|unit spelling rejected", f"second piece's sample_rate written in {unit} (same rate) was "
+                              f"rejected: {type(e).__name__}: {e}", case, {"unit": str(unit), "rate": rate})
+            if y.sample_rate.unit != unit:
+                wrong = type(y).like(y, sample_rate=y.sample_rate.value * unit)
+                expect_reject([x, wrong], f"same number, different unit ({unit}) for sample_rate")
+        if cls in ("RadioSignal", "IntensitySignal", "FullStokesSignal"):
+            for unit in (u.kHz, u.Hz):
+                y2 = type(y).like(y, chan_bw=y.chan_bw.to(unit))
+                res.transitions += 1
+                try:
+                    pb.concatenate([x, y2])
+                except Exception as e:
+                    res.violation("perturb|unit spelling rejected", f"chan_bw written in {unit} (same width) was rejected: "
+                                  f"{type(e).__name__}: {e}", case, {"unit": str(unit)})
+                z1 = z[:, :1]
+                w = type(z1).like(z1[3:], chan_bw=z1.chan_bw.value * unit)
+                if z1.chan_bw.unit != unit:
+                    expect_reject([z1[:3], w], f"same number, different unit ({unit}) for chan_bw, single channel")
+        res.hits["unit spellings"] += 1
         expect_reject([], "empty list")
         expect_reject([np.zeros(3), np.zeros(3)], "non-Signal")
     # far from the first piece a one-sample error must still be refused (no tolerance that grows with elapsed time)
@@ -427,7 +456,7 @@ def main(argv=None):
         PID, gen_cases=gen_cases, check_case=check_case, describe=describe,
         required_hits=["empty piece", "piece without start time", "leading start-less piece (start extrapolated backwards)",
                        "grouping", "non-contiguous in time rejected", "non-contiguous in frequency rejected",
-                       "joined along frequency", "other-axis mismatch rejected", "perturbed piece rejected", "one-sample error far from the start"],
+                       "joined along frequency", "other-axis mismatch rejected", "perturbed piece rejected", "one-sample error far from the start", "unit spellings"],
         assumptions=["a sequence must be rejected only if two NON-EMPTY start-bearing pieces are inconsistent by >= 1 sample "
                      "(mis-stamped empty pieces are unconstrained); rates above ~10 GHz are outside the quantifier "
                      "(Time.isclose window 40 ps)", "any exception class counts as rejection"],
